@@ -93,10 +93,13 @@ FUNCTIONS['_XLFN.IFNA'] = FUNCTIONS['IFNA'] = {
 
 
 def xswitch(val, *args):
-    if isinstance(val, bool):
-        condition = lambda x: val is x
+    if isinstance(val, (bool, np.bool_)):
+        condition = lambda x: isinstance(x, (bool, np.bool_)) and val == x
+    elif isinstance(val, str):
+        val = val.upper()
+        condition = lambda x: isinstance(x, str) and val == x.upper()
     else:
-        condition = lambda x: val == x
+        condition = lambda x: not isinstance(x, (bool, np.bool_)) and val == x
     for k, v in zip(args[::2], args[1::2]):
         if isinstance(k, XlError):
             return k
